@@ -10,7 +10,7 @@ def _run_chunk(exe, lines, timeout):
     """Run one process over lines; on a crash at line k record CRASH and go on with the rest. Returns (replies, stderr)."""
     replies, errs, start, guard = [], [], 0, 0
     while start < len(lines):
-        e = dict(os.environ); e.update(ENV)
+        e = lib._limit_env(ENV)
         try:
             r = subprocess.run([exe], input='\n'.join(lines[start:]) + '\n', stdout=subprocess.PIPE, stderr=subprocess.PIPE,
                                text=True, errors='replace', env=e, timeout=timeout)
